@@ -294,6 +294,7 @@ func (s *State) learn(f string) {
 				s.declare(r, "Real")
 				s.fin[t] = r
 				s.pc = append(s.pc, "(= "+t+" (fin "+r+"))")
+				s.propagateFin(t, r)
 			}
 		}
 		// positivity / non-zero facts used by the division fast path
@@ -355,6 +356,39 @@ func (s *State) learn(f string) {
 						s.known = map[string]string{}
 					}
 					s.known[b] = a
+				}
+			}
+		}
+	}
+}
+
+// propagateFin: terms already equated with t on this path are finite too.
+func (s *State) propagateFin(t, r string) {
+	work := []string{t}
+	for len(work) > 0 {
+		cur := work[0]
+		work = work[1:]
+		for _, a := range s.pc {
+			for _, c := range topConjuncts(a) {
+				if !strings.HasPrefix(c, "(= ") || !strings.Contains(c, cur) {
+					continue
+				}
+				parts := splitSexp(c[3 : len(c)-1])
+				if len(parts) != 2 {
+					continue
+				}
+				other := ""
+				if parts[0] == cur {
+					other = parts[1]
+				} else if parts[1] == cur {
+					other = parts[0]
+				}
+				if other == "" || strings.HasPrefix(other, "(fin ") || strings.HasPrefix(other, "(ite ") {
+					continue
+				}
+				if _, ok := s.fin[other]; !ok {
+					s.fin[other] = r
+					work = append(work, other)
 				}
 			}
 		}
